@@ -164,7 +164,7 @@ def cascade_case(r: Rng, depth, boundary):
     lines = ["BR start", "DATA 16383", "start", f"{r.choice(REL)} t1"]
     for i in range(1, depth):
         lines += one(fill) + [f"{r.choice(REL)} t{i + 1}", f"t{i}"]
-    lines += one(fill + 1) + [f"t{depth}", "OPR SVC"]
+    lines += one(boundary + 1) + [f"t{depth}", "OPR SVC"]
     return lines
 
 
